@@ -76,7 +76,7 @@ def replay(g, o, assigns, path):
 
 MANIFEST = {
     "category": "proof",
-    "text": "Proof on the extracted skeleton for all interruption points at once: the operator's exception leaves every function with its type unchanged, buffers keep consistent shapes at every exceptional exit, and init() is proved from an arbitrary object state - in particular from the state left by an interruption at any application k, single or repeated. The one stock operator with a mutable status (SparseRegularInverse: conjugate gradient may not converge) is under contract too: from ANY prior status, solve() throws exactly when THIS run did not converge - an earlier failure does not poison later solves.",
+    "text": "Proof on the extracted skeleton for all interruption points at once: the operator's exception leaves every function with its type unchanged, buffers keep consistent shapes at every exceptional exit, and init() is proved from an arbitrary object state - in particular from the state left by an interruption at any application k, single or repeated. The one stock operator with a mutable status (SparseRegularInverse: conjugate gradient may not converge) is under contract too: from ANY prior status, solve() throws exactly when THIS run did not converge - an earlier failure does not poison later solves. The complex-shift solver's root-selection probe solves restore the user's shift on the exceptional path as well (found violated and fixed, F16).",
     "note": 'floating-point values of Eigen expressions are havocked (lossy extraction, every abstracted statement listed in the evidence); callee contracts are generated stubs sharing clause texts with the enforcing harness; std::sort/Eigen/operator contracts assumed; Skolem instantiation meta-rule',
     "technique": "CBMC dfcc frame contracts + loop contracts + harness-asserted postconditions on mechanically extracted C (cadical)",
 }
